@@ -224,7 +224,7 @@ func (fr *Frame) leafCellsOf(t types.Type) []cell {
 }
 
 // applyContract models a call through the callee's contract.
-func (fr *Frame) applyContract(ct *Contract, key string, sig *types.Signature, fn *ssa.Function, args []Term, recvType types.Type, st *State, pos token.Pos, closures map[int]*ssa.MakeClosure) ([]Term, *State) {
+func (fr *Frame) applyContract(ct *Contract, key string, sig *types.Signature, fn *ssa.Function, args []Term, recvType types.Type, st *State, pos token.Pos, closures map[int]*closureVal) ([]Term, *State) {
 	u := fr.u
 	ct.Used = true
 	if ct.Trusted {
@@ -444,6 +444,7 @@ func (u *Unit) verifyRoot() {
 		l := Sym("l!h", SLoc)
 		u.assume(True, Forall([]Term{l}, Eq(Select(st.held, l, SInt), IntLit(0)), []Term{Select(st.held, l, SInt)}))
 	}
+	fr.assumeAxioms(st)
 	if ct != nil {
 		for _, c := range ct.Requires {
 			t, err := fr.evalBool(c.E, st, st)
@@ -550,18 +551,16 @@ func (fr *Frame) checkFrame(ct *Contract, end *State, names map[string]tval) {
 // runCallbackLoop models a callee that invokes the closure mc zero or more times (iterators, walkers):
 // the closure body is verified like a loop body against the caller's "callback <name> invariant" clauses,
 // under the callee's assumptions about the callback arguments ("callback <param> assume ...").
-func (fr *Frame) runCallbackLoop(mc *ssa.MakeClosure, calleeCt *Contract, paramName string, st *State, pos token.Pos, calleeKey string) *State {
+func (fr *Frame) runCallbackLoop(cv *closureVal, calleeCt *Contract, paramName string, st *State, pos token.Pos, calleeKey string) *State {
 	u := fr.u
-	fn := mc.Fn.(*ssa.Function)
+	fn := cv.fn
+	mc := cv.mc
 	if !u.canInline(fn, true) {
 		u.note("callback %s passed to %s cannot be executed in context", fn.Name(), calleeKey)
 		_, st2 := fr.unknownCall("callback "+fn.Name(), types.NewTuple(), st, pos)
 		return st2
 	}
-	var binds []Term
-	for _, b := range mc.Bindings {
-		binds = append(binds, fr.val(b))
-	}
+	binds := cv.binds
 	// invariants declared by the caller for this closure
 	var invs []Clause
 	if fr.contract != nil {
@@ -587,7 +586,7 @@ func (fr *Frame) runCallbackLoop(mc *ssa.MakeClosure, calleeCt *Contract, paramN
 	// one symbolic invocation
 	invoke := func(s *State, keepObls bool) []Exit {
 		child := &Frame{u: u, fn: fn, key: funcKey(fn), regs: map[ssa.Value]Term{}, tuples: map[ssa.Value][]Term{}, depth: fr.depth + 1,
-			parent: fr, guardedVals: map[ssa.Value]guardedVal{}, mc: mc, mcFrame: fr}
+			parent: fr, guardedVals: map[ssa.Value]guardedVal{}, mc: mc, mcFrame: cv.frame}
 		child.contract = u.cs.ByKey[child.key]
 		names := map[string]tval{}
 		s = s.clone()
